@@ -111,6 +111,12 @@ type unmarshalNested struct {
 	Stamp datatype.Time `avp:"Event-Timestamp"`
 }
 
+// destinations reused from case to case (see inspect); pre-sized so that capacity is there from the start
+var (
+	reusedAVPs   = unmarshalAVPs{Auth: make([]*diam.AVP, 0, 4), Acct: make([]diam.AVP, 0, 4), VSA: make([]*diam.AVP, 0, 2), IPs: make([]net.IP, 0, 3), Vendors: make([]uint32, 0, 8)}
+	reusedNested = unmarshalNested{VSAs: make([]vsaStruct, 0, 4), VSAsp: make([]*vsaStruct, 0, 4)}
+)
+
 // guard runs f and converts a panic into a failure.
 func guard(what string, f func()) (fail *ev.Failure) {
 	defer func() {
@@ -152,6 +158,22 @@ func inspect(m *diam.Message) *ev.Failure {
 		return f
 	}
 	if f := guard("Unmarshal(nested structs)", func() { m.Unmarshal(new(unmarshalNested)) }); f != nil {
+		return f
+	}
+	// destinations that are not fresh: an application that decodes every message of a connection
+	// into the same struct truncates its slices (keeping their capacity) before the next Unmarshal
+	if f := guard("Unmarshal(reused AVP-field struct)", func() {
+		r := &reusedAVPs
+		r.Auth, r.Acct, r.VSA, r.Failed, r.IPs, r.Vendors = r.Auth[:0], r.Acct[:0], r.VSA[:0], r.Failed[:0], r.IPs[:0], r.Vendors[:0]
+		m.Unmarshal(r)
+	}); f != nil {
+		return f
+	}
+	if f := guard("Unmarshal(reused nested struct)", func() {
+		r := &reusedNested
+		r.VSAs, r.VSAsp, r.VSA.Acct = r.VSAs[:0], r.VSAsp[:0], r.VSA.Acct[:0]
+		m.Unmarshal(r)
+	}); f != nil {
 		return f
 	}
 	if f := guard("smparser.CER.Parse", func() { new(smparser.CER).Parse(m, smparser.Server) }); f != nil {
